@@ -217,8 +217,8 @@ def families(tier):
         prei += ["size <= 3", "1 <= cb <= 3", "n1 == 3", "t >= 4", "a2 <= 1", "x2 == 0 or x2 == 3 or x2 == 6 or x2 == %d" % NOP]
         partsi = parts_product(cb=(1, 3), i0=range(3), i1=range(3))
     else:
-        prei += ["size <= 4", "a2 <= 2"]
-        partsi = parts_product(cb=range(1, 5), n1=(2, 3), i0=range(3), i1=range(3))
+        prei += ["size <= 3", "a2 <= 2", "t == 0 or t >= 4"]
+        partsi = parts_product(cb=(1, 3), n1=(2, 3), i0=range(3), i1=range(3))
     fams.append(Family(name="lifei", fn="tpl_lifei", params=PI, pre=prei, parts=partsi,
                        twin_pre=["cb == 3", "n1 == 3", "i0 == 1", "i1 == 2", "x2 == %d" % NOP],
                        twin_args=[3, 3, 3, 1, 2, 0, NOP, 0, 5]))
